@@ -298,13 +298,14 @@ def run(prog: Program, res: Result, tier: str) -> None:
                         "in the enumerated list of non-SIGPROC writers", key=f"{f.ident}:{norm(call.func)}")
 
     # ---- O7 each write appends whole samples of the block just computed (shared with C07.R5) ------------------
-    from .c07 import run as run_c07
-    scratch = Result("C07", prog)
-    run_c07(prog, scratch, tier)
-    for o in scratch.obligations:
-        if o.rule == "C07.R5" and (o.key.endswith(":written") or o.key.endswith(":scratch") or o.key.endswith(":selection")):
-            res.add("O7", None, None, o.ok, f"[{o.rule}] {o.detail}", construct=o.construct, key=f"{o.rule}:{o.key}", where=o.where)
-            res.obligations[-1].file, res.obligations[-1].line = o.file, o.line
+    from ..report import depends as _depends
+    _depends(res, "O7", prog, tier, "C07",
+             accept=lambda o: (o.rule == "C07.R5" and (o.key.endswith(":written") or o.key.endswith(":scratch") or o.key.endswith(":selection"))) or
+             (o.rule == "C07.R4" and "downsample" in (o.where or "")),
+             why="what each write appends is C07's business: the written slices, and for downsample that no decimation group straddles a gulp "
+                 "(otherwise the samples appended after the first gulp are not those of the full result)")
+    _depends(res, "O7", prog, tier, "C04", accept=lambda o: o.rule == "C04.R1",
+             why="FileWriter.cwrite writes exactly the array it was given, converted (C04.R1): a writer that keeps state between calls could append stale bytes")
 
     # ---- O5 no patching ------------------------------------------------------------------
     prog.func(SIGPROC, "edit_header")
@@ -420,7 +421,7 @@ def run(prog: Program, res: Result, tier: str) -> None:
     res.floor("O4", 12)
     res.floor("O2c", 12)
     res.floor("O5", 1)
-    res.floor("O7", 9)
+    res.floor("O7", 13)
 
 
 def _write_mode(a: ast.AST) -> bool:
